@@ -9,12 +9,21 @@
   to every factorisation the library returns): verdict = solvability of the padded system, the returned rows solve it
   (padding rows included), with the consistency check off a solution is returned whenever one exists. The Mathlib form
   of solvability is `ML.solvable_iff_exists_matrix`.
+  END TO END (M4riProofs/Top.lean, PB27) — no certificate hypothesis is left: `mzd_pluq` itself is mirrored down to the
+  Four-Russians base case (`PR.pluqTop L1 L2 L3`, see C03) and proved to return an `IsPLUQ` certificate on every well-formed
+  input for every cache triple (`Top.pluqTop_isPLUQ`). Hence, for `mzd_solve_left` = `_mzd_solve_left` over the real
+  `mzd_pluq`, every cache triple, every well-formed `A` and `B` with `max(nrows A, ncols A)` rows:
+    `Top.solveLeft_top_verdict`, `Top.solveLeft_top_verdict_iff`   the value returned is `0` iff the padded system is solvable
+    `Top.solveLeft_top_solution`   when `0` is returned the first `ncols A` rows left in `B` solve it
+    `Top.solveLeft_top_nocheck`    with the check off `0` is returned and a solution delivered whenever one exists
+  Nothing is per-input certification; `check_solve` remains in the runs as a tie between the mirrors and the C code.
 -/
 import M4riProofs.Checkers
 import M4riProofs.GaussOK
 import M4riProofs.Solve
 import M4riProofs.PleNaive
 import M4riProofs.MathlibSpec
+import M4riProofs.Top
 namespace M4ri.Props.C06
 open M4ri M4ri.BMat
 
@@ -47,5 +56,25 @@ theorem verdict_oracle {A B : BMat} (hB : B.WF) (hBr : B.nrows = max A.nrows A.n
 #check @M4ri.BMat.solvable_iff_rankCert
 #check @M4ri.BMat.solvable_spec'
 #check @M4ri.BMat.solvable_eq
+
+
+-- end to end over the real `mzd_pluq` (M4riProofs/Top.lean), every cache triple
+/-- `mzd_solve_left(A, B, cutoff, 1)` returns `0` iff the system is solvable, and then `B` holds a solution -/
+theorem solve_left_end_to_end (L1 L2 L3 : Nat) {A B : BMat} (hA : A.WF) (hB : B.WF)
+    (hBr : B.nrows = max A.nrows A.ncols) :
+    ((SV.solveLeft (PR.pluqTop L1 L2 L3) A B true).1 = 0 ↔
+      ∃ X : BMat, X.WF ∧ X.nrows = A.ncols ∧ X.ncols = B.ncols ∧ (padRows A).mul X = B) ∧
+    ((SV.solveLeft (PR.pluqTop L1 L2 L3) A B true).1 = 0 →
+      (padRows A).mul ((SV.solveLeft (PR.pluqTop L1 L2 L3) A B true).2.2.sub 0 0 A.ncols B.ncols) = B) :=
+  ⟨Top.solveLeft_top_verdict_iff L1 L2 L3 hA hB hBr, Top.solveLeft_top_solution L1 L2 L3 hA hB hBr⟩
+
+#check @M4ri.BMat.Top.pluqTop_isPLUQ
+#check @M4ri.BMat.Top.solveLeft_top_verdict
+#check @M4ri.BMat.Top.solveLeft_top_verdict_iff
+#check @M4ri.BMat.Top.solveLeft_top_solution
+#check @M4ri.BMat.Top.solveLeft_top_nocheck
+#check @M4ri.BMat.G2.solveLeft_verdict
+#check @M4ri.BMat.G2.solveLeft_solution
+#check @M4ri.BMat.G2.solveLeft_nocheck
 
 end M4ri.Props.C06
